@@ -102,105 +102,208 @@ func ruleNEntry(c *engine.Context) *report.Rule {
 			"%s inspects, converts or replaces the source value before evaluation: a value is then treated differently when it is the root than when a path reaches it (and differently from the function Parse returns)", load.FuncName(retrieve))
 		engine.Restrict(f, "C01", "C08", "C20", "C04", "C03")
 	}
-	// (2) Parse: the buffer of the generated parser is the path parameter itself
+	// (2)+(3) a must-analysis over Parse (and the package helpers it calls, with arguments mapped):
+	// events B (the parser's text := the path as passed), I ((re-)initialisation), M (matcher),
+	// X (actions). At M both B and I must have happened on every path, at X also M, at the normal
+	// return also X.
 	var pathP *ssa.Parameter
 	for _, pp := range parse.Params {
 		if isBasicKind(pp.Type(), types.String) {
 			pathP = pp
 		}
 	}
-	r.Instances++
-	okBuf, nBuf := true, 0
-	at = nil
-	for _, b := range parse.Blocks {
-		for _, ins := range b.Instrs {
-			st, ok := ins.(*ssa.Store)
-			if !ok || !isBasicKind(st.Val.Type(), types.String) {
-				continue
-			}
-			fa, ok := st.Addr.(*ssa.FieldAddr)
-			if !ok {
-				continue
-			}
-			pt, ok := fa.X.Type().(*types.Pointer)
-			if !ok || p.Roles.ParserType == nil || !types.Identical(pt.Elem(), p.Roles.ParserType) {
-				continue
-			}
-			nBuf++
-			if st.Val != ssa.Value(pathP) {
-				okBuf, at = false, st
-			}
-			if len(dominatingConds(b)) > 0 {
-				okBuf, at = false, st
-			}
+	pe := &pipeEvents{p: p, problems: map[string]ssa.Instruction{}}
+	final := pe.run(parse, pathP, 0, 0)
+	if final&evX == 0 && len(pe.problems) == 0 {
+		pe.problems["the actions do not run on every path to Parse's return"] = nil
+	}
+	if pe.seen&evB == 0 {
+		pe.problems["no store of the path into the generated parser was found"] = nil
+	}
+	r.Instances += 2
+	var bufProblems, pipeProblems []string
+	var atB, atP ssa.Instruction
+	for m, at := range pe.problems {
+		if strings.Contains(m, "text") || strings.Contains(m, "path into") {
+			bufProblems = append(bufProblems, m)
+			atB = at
+		} else {
+			pipeProblems = append(pipeProblems, m)
+			atP = at
 		}
 	}
-	r.Oblige(okBuf && nBuf > 0)
-	r.Sample("%s gives the generated parser its own path parameter, unconditionally: %v", load.FuncName(parse), okBuf && nBuf > 0)
-	if !(okBuf && nBuf > 0) {
+	sort.Strings(bufProblems)
+	sort.Strings(pipeProblems)
+	r.Oblige(len(bufProblems) == 0)
+	r.Sample("%s gives the generated parser its own path parameter before matching, on every path: %v", load.FuncName(parse), len(bufProblems) == 0)
+	if len(bufProblems) > 0 {
 		pos := p.RelPos(parse.Pos())
-		if at != nil {
-			pos = p.RelPos(at.Pos())
+		if atB != nil {
+			pos = p.RelPos(atB.Pos())
 		}
 		f := r.Violation(load.FuncName(parse)+" does not give the parser the path as passed", pos,
-			"the text stored into the generated parser is not (always) the path parameter itself: positions and `near` texts of syntax errors are computed against the parser's text, so they no longer refer to the caller's string, or an earlier call's text is reused")
+			"%s: positions and `near` texts of syntax errors are computed against the parser's text, so they no longer refer to the caller's string, or an earlier call's text is reused", strings.Join(bufProblems, "; "))
 		engine.Restrict(f, "C17", "C19", "C02")
 	}
-	// (3) the pipeline: Init|Reset, Parse, Execute all dominate the normal return, in this order
-	r.Instances++
-	var retBlk *ssa.BasicBlock
-	for _, b := range parse.Blocks {
-		if ret, ok := b.Instrs[len(b.Instrs)-1].(*ssa.Return); ok && b.Comment != "recover" {
-			_ = ret
-			retBlk = b
+	r.Oblige(len(pipeProblems) == 0)
+	r.Sample("%s runs (re-)initialisation, matcher and actions on every call, in this order: %v", load.FuncName(parse), len(pipeProblems) == 0)
+	if len(pipeProblems) > 0 {
+		pos := p.RelPos(parse.Pos())
+		if atP != nil {
+			pos = p.RelPos(atP.Pos())
 		}
-	}
-	match := generatedCalls(p, parse, "Parse")
-	exec := generatedCalls(p, parse, "Execute")
-	inits := append(generatedCalls(p, parse, "Init"), generatedCalls(p, parse, "Reset")...)
-	okPipe := retBlk != nil && len(match) == 1 && len(exec) == 1 && len(inits) >= 1
-	why := ""
-	if okPipe {
-		if !(match[0].Block() == retBlk || match[0].Block().Dominates(retBlk)) {
-			okPipe, why = false, "the matcher does not run on every path"
-		}
-		if !(exec[0].Block() == retBlk || exec[0].Block().Dominates(retBlk)) {
-			okPipe, why = false, "the actions do not run on every path"
-		}
-		if okPipe && !instrBefore(match[0], exec[0]) {
-			okPipe, why = false, "the actions run before the matcher"
-		}
-		// every path to the matcher passes Init or Reset: the join of their blocks dominates the matcher
-		for _, ic := range inits {
-			if !instrBefore(ic, match[0]) && !reachesOnlyThrough(ic.Block(), match[0].Block()) {
-				okPipe, why = false, "initialisation does not precede the matcher"
-			}
-		}
-		covered := false
-		for _, ic := range inits {
-			if ic.Block() == match[0].Block() || ic.Block().Dominates(match[0].Block()) {
-				covered = true
-			}
-		}
-		if !covered && len(inits) >= 2 {
-			// the usual `if first { Init } else { Reset }`: both arms of one If that dominates the matcher
-			d := inits[0].Block().Idom()
-			covered = d != nil && inits[1].Block().Idom() == d && d.Dominates(match[0].Block()) && len(dominatingCondsBetween(d, inits[0].Block())) <= 1
-		}
-		if !covered {
-			okPipe, why = false, "the parser is not (re-)initialised on every path to the matcher"
-		}
-	} else {
-		why = fmt.Sprintf("expected one call each of the matcher and the action executor and at least one of Init/Reset (found %d, %d, %d)", len(match), len(exec), len(inits))
-	}
-	r.Oblige(okPipe)
-	r.Sample("%s runs (re-)initialisation, matcher and actions on every call, in this order: %v", load.FuncName(parse), okPipe)
-	if !okPipe {
-		f := r.Violation(load.FuncName(parse)+" does not run the whole pipeline on every call", p.RelPos(parse.Pos()),
-			"%s: what Parse returns then depends on what an earlier call left in the shared parser (token tree, memo table, text)", why)
+		f := r.Violation(load.FuncName(parse)+" does not run the whole pipeline on every call", pos,
+			"%s: what Parse returns then depends on what an earlier call left in the shared parser (token tree, memo table, text)", strings.Join(pipeProblems, "; "))
 		engine.Restrict(f, "C19", "C02", "C17")
 	}
 	return r
+}
+
+const (
+	evB = 1 << iota
+	evI
+	evM
+	evX
+)
+
+type pipeEvents struct {
+	p        *load.Program
+	problems map[string]ssa.Instruction
+	seen     int
+}
+
+// run: forward must-analysis of fn starting with the events `in`; pathV is the value in fn that
+// holds the path as passed (nil if none). Returns the events guaranteed at fn's normal returns.
+func (pe *pipeEvents) run(fn *ssa.Function, pathV ssa.Value, in int, depth int) int {
+	p := pe.p
+	out := map[*ssa.BasicBlock]int{}
+	all := evB | evI | evM | evX
+	for _, b := range fn.Blocks {
+		out[b] = all
+	}
+	transfer := func(b *ssa.BasicBlock, st int, report bool) int {
+		for _, ins := range b.Instrs {
+			switch x := ins.(type) {
+			case *ssa.Store:
+				if !isBasicKind(x.Val.Type(), types.String) {
+					continue
+				}
+				fa, ok := x.Addr.(*ssa.FieldAddr)
+				if !ok {
+					continue
+				}
+				pt, ok := fa.X.Type().(*types.Pointer)
+				if !ok || p.Roles.ParserType == nil || !types.Identical(pt.Elem(), p.Roles.ParserType) {
+					continue
+				}
+				pe.seen |= evB
+				if pathV != nil && x.Val == pathV {
+					st |= evB
+				} else {
+					st &^= evB
+					if report {
+						pe.problems["the text stored into the generated parser is not the path parameter itself"] = x
+					}
+				}
+			case *ssa.Call:
+				sc := x.Call.StaticCallee()
+				if sc == nil {
+					continue
+				}
+				if p.FuncIsGenerated(sc) {
+					switch sc.Name() {
+					case "Init", "Reset":
+						st |= evI
+					case "Parse":
+						if report && st&evB == 0 {
+							pe.problems["the matcher can run on a text that is not (on every path) the path of this call"] = x
+						}
+						if report && st&evI == 0 {
+							pe.problems["the parser is not (re-)initialised on every path to the matcher"] = x
+						}
+						st |= evM
+					case "Execute":
+						if report && st&evM == 0 {
+							pe.problems["the actions can run without the matcher having run in this call"] = x
+						}
+						st |= evX
+					}
+					continue
+				}
+				if p.InPkg(sc) && sc.Blocks != nil && depth < 2 && p.ParsePhase[sc] && sc != fn {
+					// a helper: its own guaranteed events, with the path mapped through its parameters
+					var sub ssa.Value
+					for i, a := range x.Call.Args {
+						if pathV != nil && a == pathV && i < len(sc.Params) {
+							sub = sc.Params[i]
+						}
+					}
+					touches := false
+					for _, bb := range sc.Blocks {
+						for _, y := range bb.Instrs {
+							if c2, ok := y.(*ssa.Call); ok && c2.Call.StaticCallee() != nil && p.FuncIsGenerated(c2.Call.StaticCallee()) {
+								touches = true
+							}
+							if s2, ok := y.(*ssa.Store); ok {
+								if fa, ok := s2.Addr.(*ssa.FieldAddr); ok {
+									if pt, ok := fa.X.Type().(*types.Pointer); ok && p.Roles.ParserType != nil && types.Identical(pt.Elem(), p.Roles.ParserType) {
+										touches = true
+									}
+								}
+							}
+						}
+					}
+					if touches {
+						st = pe.run(sc, sub, st, depth+1)
+					}
+				}
+			}
+		}
+		return st
+	}
+	// fixpoint (the CFG of these functions is small; loops are not expected)
+	for iter := 0; iter < 6; iter++ {
+		changed := false
+		for _, b := range fn.Blocks {
+			st := all
+			if len(b.Preds) == 0 {
+				st = in
+			} else {
+				for _, pb := range b.Preds {
+					st &= out[pb]
+				}
+			}
+			ns := transfer(b, st, false)
+			if ns != out[b] {
+				out[b] = ns
+				changed = true
+			}
+		}
+		if !changed {
+			break
+		}
+	}
+	res := all
+	nret := 0
+	for _, b := range fn.Blocks {
+		st := all
+		if len(b.Preds) == 0 {
+			st = in
+		} else {
+			for _, pb := range b.Preds {
+				st &= out[pb]
+			}
+		}
+		st = transfer(b, st, true)
+		if _, ok := b.Instrs[len(b.Instrs)-1].(*ssa.Return); ok && b.Comment != "recover" {
+			res &= st
+			nret++
+		}
+	}
+	if nret == 0 {
+		return in
+	}
+	return res
 }
 
 // reachesOnlyThrough is a loose helper: a dominates b or they share the immediate dominator.
